@@ -367,6 +367,20 @@ void thrift_read_map_begin(thrift_decoder_t* dec,
  * ============================================================================
  */
 
+/* Booleans inside a list, set or map occupy one byte each; only a boolean struct
+ * field has its value folded into the field header. */
+static void skip_container_element(thrift_decoder_t* dec, thrift_type_t type) {
+    if (type == THRIFT_TYPE_TRUE || type == THRIFT_TYPE_FALSE) {
+        if (!has_bytes(dec, 1)) {
+            set_error(dec, CARQUET_ERROR_THRIFT_TRUNCATED, "Truncated boolean element");
+            return;
+        }
+        carquet_buffer_reader_skip(&dec->reader, 1);
+        return;
+    }
+    thrift_skip(dec, type);
+}
+
 void thrift_skip(thrift_decoder_t* dec, thrift_type_t type) {
     if (dec->status != CARQUET_OK) {
         return;
@@ -412,7 +426,7 @@ void thrift_skip(thrift_decoder_t* dec, thrift_type_t type) {
             int32_t count;
             thrift_read_list_begin(dec, &elem_type, &count);
             for (int32_t i = 0; i < count && dec->status == CARQUET_OK; i++) {
-                thrift_skip(dec, elem_type);
+                skip_container_element(dec, elem_type);
             }
             break;
         }
@@ -422,8 +436,8 @@ void thrift_skip(thrift_decoder_t* dec, thrift_type_t type) {
             int32_t count;
             thrift_read_map_begin(dec, &key_type, &value_type, &count);
             for (int32_t i = 0; i < count && dec->status == CARQUET_OK; i++) {
-                thrift_skip(dec, key_type);
-                thrift_skip(dec, value_type);
+                skip_container_element(dec, key_type);
+                skip_container_element(dec, value_type);
             }
             break;
         }
